@@ -69,6 +69,35 @@ pub struct Failure {
     pub case: J,
 }
 
+/// Incremented on every counted case; a watchdog thread in each worker turns
+/// a stalled heartbeat into exit code 3.
+pub static HEARTBEAT: std::sync::atomic::AtomicU64 = std::sync::atomic::AtomicU64::new(0);
+
+pub fn beat() {
+    HEARTBEAT.fetch_add(1, std::sync::atomic::Ordering::Relaxed);
+}
+
+pub fn start_watchdog(limit_secs: u64) {
+    std::thread::spawn(move || {
+        let mut last = HEARTBEAT.load(std::sync::atomic::Ordering::Relaxed);
+        let mut stalled = 0u64;
+        loop {
+            std::thread::sleep(Duration::from_secs(1));
+            let now = HEARTBEAT.load(std::sync::atomic::Ordering::Relaxed);
+            if now == last {
+                stalled += 1;
+                if stalled >= limit_secs {
+                    eprintln!("watchdog: no progress for {} s", limit_secs);
+                    std::process::exit(3);
+                }
+            } else {
+                stalled = 0;
+                last = now;
+            }
+        }
+    });
+}
+
 #[derive(Default)]
 pub struct Recorder {
     pub evaluations: u64,
@@ -88,6 +117,7 @@ impl Recorder {
     /// Counts one evaluated case. `nontrivial` carries the distinctness hash
     /// when the case satisfies the property's non-triviality rule.
     pub fn count(&mut self, nontrivial: Option<u64>) {
+        beat();
         if self.frozen {
             return;
         }
@@ -133,6 +163,7 @@ impl Recorder {
     }
     /// Called before executing a case when tracing is on (crash recovery).
     pub fn trace_case(&self, f: impl FnOnce() -> J) {
+        beat();
         if let Some(p) = &self.trace {
             let _ = std::fs::write(p, f().to_string());
         }
@@ -240,6 +271,10 @@ pub trait Check: Sync {
     }
     fn needs_cli(&self) -> bool {
         false
+    }
+    /// Seconds without any counted case before a worker gives up (exit 3).
+    fn watchdog_secs(&self) -> u64 {
+        300
     }
     /// Extra keys for the coverage object.
     fn extra_coverage(&self, _tier: Tier) -> J {
@@ -356,6 +391,7 @@ pub fn worker_main(check: &dyn Check, tier: Tier, unit_idx: usize, shard: u32, o
     let unit = &units[unit_idx];
     let seed = shard_seed(seed_from_env(), check.id(), unit.name, shard);
     let mut rec = Recorder { trace, ..Recorder::default() };
+    start_watchdog(check.watchdog_secs());
     check.run_unit(unit, shard, seed, tier, &mut rec);
     let mut f = std::fs::File::create(out).expect("create worker output");
     f.write_all(rec.to_json().to_string().as_bytes()).expect("write worker output");
@@ -690,6 +726,7 @@ pub fn replay_file(checks: &[&dyn Check], path: &Path) -> i32 {
             return 2;
         }
     };
+    start_watchdog(check.watchdog_secs() * 10);
     match check.replay(&doc["case"]) {
         Ok(()) => {
             println!("replay passed: {}", path.display());
